@@ -59,7 +59,11 @@ public:
     {
         T const value = std::generate_canonical<T, std::numeric_limits<T>::digits>(generator);
 
-        auto const iterator = std::lower_bound(weight_sums.begin(), weight_sums.end(), value);
+        // a random number that is exactly zero must not select one of the channels at the beginning
+        // that have weight zero (their normalized sums are zero, too); `std::upper_bound` skips them
+        auto const iterator = (value == T())
+            ? std::upper_bound(weight_sums.begin(), weight_sums.end(), value)
+            : std::lower_bound(weight_sums.begin(), weight_sums.end(), value);
 
         I const result = std::distance(weight_sums.begin(), iterator);
 
